@@ -39,6 +39,16 @@ def run(ctx):
         for k in tot:
             tot[k] += s[k]
         batches.append(out)
+    # rule calls three deep under every triple of modifiers, calls under ? and *: a call refused half-way through a
+    # change of atomicity or of look-ahead mode must leave nothing behind
+    nest = os.path.join(ctx.work, "nest3.ndjson")
+    nest3_file(nest, inputs=("<x>", "x,x", "x-xy", "x;x", "x", "<x, x-xy>") if quick else NEST3_INPUTS)
+    out = os.path.join(ctx.work, "sw_nest3.ndjson")
+    s = run_json([vh, "c12-emit", "--cases", nest, "--out", out], timeout=6000)
+    os.remove(nest)
+    for k in tot:
+        tot[k] += s[k]
+    batches.append(out)
     for i in range(4 if quick else 24):
         out = os.path.join(ctx.work, "sw_rand_%d.ndjson" % i)
         s = run_json([vh, "c12-emit", "--seed", str(ctx.seed * 100 + i), "--grammars", "150" if quick else "400", "--out", out], timeout=6000)
